@@ -1227,6 +1227,7 @@ sadump_cleanup(struct kdump_shared *shared)
 
 	if (sp) {
 		free(sp->pfm.regions);
+		free(sp->mem_pagemap.regions);
 		free(sp);
 		shared->fmtdata = NULL;
 	}
